@@ -23,7 +23,9 @@ pub fn gen(tier: &str, r: &mut Rng) -> Vec<String> {
         let d = gen_doc_ids(r, with_h, mixed, numeric_ids);
         let level = *r.pick(&["Strict", "Medium", "Loose"]);
         let plain = render(&d, r, true);
-        let fancy = render(&d, r, false);
+        let mut fancy = render(&d, r, false);
+        // DOS line ends throughout (text fields then close with CR LF ;)
+        if r.chance(1, 5) { fancy = fancy.replace("\r\n", "\n").replace('\n', "\r\n"); }
         let exp = if has_mixed_alt(&d) { None } else { expected(&d).and_then(|p| body(&p)) };
         match exp {
             Some(e) => {
